@@ -149,6 +149,11 @@ def build_tree(rng, seed, index, depth, counter):
     return desc, files, shape
 
 
+def kid_text(rng, n: int) -> str:
+    """the ways a key identifier is written in a configuration: the text is read as a number literal with the usual prefixes (C09-p)"""
+    return rng.choice([hex(n), hex(n), str(n), str(n), "0X%X" % n, "0x%08x" % n, "0o%o" % n, "0b" + bin(n)[2:]])
+
+
 def random_cfg(rng, shape, root, presigned):
     cfg = {}
     key_types = signing.KEY_TYPES
@@ -187,7 +192,7 @@ def work_recursive(args):
                 cfg["key-id"] = hex(rng.randrange(0, 2 ** 32))
         else:
             cfg["key-name"] = "key_" + signing.MATCHING_KEY[alg] + rng.choice(["", "_b", "_c", ".v2", ".v2"])
-            cfg["key-id"] = hex(rng.choice([0, 23, 24, 255, 256, 65535, 65536, 2 ** 31 - 32, 2 ** 32 - 1, rng.randrange(0, 2 ** 32)]))
+            cfg["key-id"] = kid_text(rng, rng.choice([0, 23, 24, 255, 256, 65535, 65536, 2 ** 31 - 32, 2 ** 32 - 1, 40022100, 10000000, rng.randrange(0, 2 ** 32)]))
             if rng.random() < 0.3:
                 cfg["already-signed-action"] = rng.choice(["error", "skip", "remove-old"])
         named = {n: s for n, s in shape.items() if rng.random() < 0.8}
